@@ -52,12 +52,14 @@ REQUIRED_COUNTERS = {
               "rto_state_independence_checked": 450, "rto_chain_draws_checked": 450,
               "stacked_adjoint_checked": 12000, "stacked_normal_matrix_checked": 170,
               "ugla_mean_checked": 100, "ugla_cov_entries_checked": 3500, "ugla_affine_checked": 200,
-              "normal_draws_scripted": 5000, "cgls_solves_observed": 5000, "reuse_histories_checked": 40},
+              "normal_draws_scripted": 5000, "cgls_solves_observed": 5000, "reuse_histories_checked": 40,
+              "rto_lite_directions_checked": 60, "inputs_unchanged_checked": 150},
     "thorough": {"rto_mean_checked": 1300, "rto_cov_entries_checked": 60000, "rto_affine_checked": 2500,
                  "rto_state_independence_checked": 4000, "rto_chain_draws_checked": 4000,
                  "stacked_adjoint_checked": 150000, "stacked_normal_matrix_checked": 1400,
                  "ugla_mean_checked": 700, "ugla_cov_entries_checked": 25000, "ugla_affine_checked": 1400,
-                 "normal_draws_scripted": 40000, "cgls_solves_observed": 40000, "reuse_histories_checked": 240},
+                 "normal_draws_scripted": 40000, "cgls_solves_observed": 40000, "reuse_histories_checked": 240,
+                 "rto_lite_directions_checked": 400, "inputs_unchanged_checked": 1000},
 }
 BUDGET_S = {"quick": 240.0, "thorough": 2400.0}
 
@@ -307,6 +309,38 @@ def cases(tier, seed):
                      {"kind": "gaussian", "form": r.choice(FORMS), "mean": "vector"}, build="direct")
             c["dom"] = {"type": "cont2d", "shape": list(shp)}; i += 1
             out.append(c)
+        # T: structured full matrices (block diagonal, banded, permuted blocks, Kronecker, I + low rank, repeated
+        #    eigenvalues) in the four families, as prior and as noise; memory-layout flavours of the arrays handed in
+        LAY = ["c", "f", "view", "readonly"]
+        FULLF = {"cov": ["cov_full", "cov_sparse"], "prec": ["prec_full", "prec_sparse"], "sqrtcov": ["sqrtcov_symfull"], "sqrtprec": ["sqrtprec_full", "sqrtprec_sparse"]}
+        for si, st in enumerate(STRUCTS):
+            for fi, fam in enumerate(FULLF):
+                for side in ("prior", "noise"):
+                    f = FULLF[fam][(si + rep) % len(FULLF[fam])]
+                    n = r.randint(6, 9) if side == "prior" else r.randint(2, 6)
+                    lik = _lik(r, n, m=(r.randint(6, 9) if side == "noise" else r.randint(2, 7)), noise=(f if side == "noise" else r.choice(FORMS)))
+                    prior = {"kind": "gaussian", "form": (f if side == "prior" else r.choice(FORMS)), "mean": r.choice(["vector", "vector", "scalar"])}
+                    (prior if side == "prior" else lik)["struct"] = st
+                    c = _rto(i, IFACES[(si + fi + rep + (side == "noise")) % 2], n, [lik], prior, build=r.choice(["joint", "direct"])); i += 1
+                    c["layout"] = LAY[(si + fi + rep) % 4]
+                    out.append(c)
+        # B: the same in the sparse regime of the Gaussian class (dim 76..120 > config.MIN_DIM_SPARSE), lite read-off
+        for si, st in enumerate(STRUCTS + ["generic"]):
+            for fi, fam in enumerate(FULLF):
+                for side in ("prior", "noise"):
+                    if tier == "quick" and st == "generic" and side == "noise":
+                        continue
+                    f = FULLF[fam][0]
+                    if side == "prior":
+                        n = r.randint(76, 120); lik = _lik(r, n, m=r.randint(8, 20), noise=r.choice(FORMS))
+                    else:
+                        n = r.randint(3, 8); lik = _lik(r, n, m=r.randint(76, 110), noise=f)
+                    prior = {"kind": "gaussian", "form": (f if side == "prior" else r.choice(FORMS)), "mean": "vector"}
+                    if st != "generic":
+                        (prior if side == "prior" else lik)["struct"] = st
+                    c = _rto(i, IFACES[(si + fi + rep) % 2], n, [lik], prior, build=r.choice(["joint", "direct"])); i += 1
+                    c["lite"] = True; c["layout"] = LAY[(si + fi + rep + 1) % 4]
+                    out.append(c)
     n_rand = 240 if tier == "quick" else 2400
     for _ in range(n_rand):
         out.append(_random_rto(r, i)); i += 1
@@ -344,6 +378,8 @@ def _cfg(case):
         return {"sampler": "UGLA", "iface": case["iface"], "loc": case["loc"], "bc": case["bc"], "pd": case["pd"]}
     p = case["prior"]
     cfg = {"sampler": "LinearRTO", "iface": case["iface"], "build": case["build"], "prior": p["kind"],
+           "prior_struct": p.get("struct"), "noise_struct": "+".join(str(l.get("struct")) for l in case["liks"]),
+           "layout": case.get("layout", "c"), "regime": ("sparse" if (case["n"] > 75 or any(l["m"] > 75 for l in case["liks"])) else "dense"),
            "prior_k": p.get("k"), "noise_k": "+".join(str(l.get("k")) for l in case["liks"]),
            "dom": (case["dom"]["type"] + "_" + str(case["dom"].get("order", "")) if case.get("dom") else "vector"),
            "rng": "+".join((l["rng"]["type"] + "_" + str(l["rng"].get("order", "")) if l.get("rng") else "vector") for l in case["liks"]),
@@ -377,10 +413,100 @@ def _tridiag_spd(rs, n, s=1.0):
     o = rs.uniform(-0.9, 0.9, max(n - 1, 0))
     return s * (np.diag(d) + np.diag(o, 1) + np.diag(o, -1))
 
-def _gen_form(rs, form, n, s):
+STRUCTS = ["block2", "block3u", "block4", "banded", "permblock", "kron", "idlowrank", "repeated"]
+
+def _corr_block(rs, k):
+    if k == 1:
+        return np.array([[float(rs.uniform(0.6, 1.6))]])
+    if rs.uniform() < 0.5:
+        rho = float(rs.choice([0.5, 0.8, -0.6])); idx = np.arange(k)
+        return float(rs.uniform(0.7, 1.4)) * rho ** np.abs(idx[:, None] - idx[None, :])
+    return _spd(rs, k, 1.0)
+
+def _blockdiag(blocks):
+    n = sum(b.shape[0] for b in blocks)
+    M = np.zeros((n, n)); k = 0
+    for b in blocks:
+        M[k:k + b.shape[0], k:k + b.shape[0]] = b; k += b.shape[0]
+    return M
+
+def _split(rs, n, k, equal):
+    k = max(1, min(k, n))
+    if equal:
+        base = [n // k] * k
+        for i in range(n - sum(base)): base[i] += 1
+        return base
+    cuts = sorted(rs.choice(np.arange(1, n), size=k - 1, replace=False).tolist()) if k > 1 else []
+    return [b - a for a, b in zip([0] + cuts, cuts + [n])]
+
+def _structured(rs, n, struct):
+    """Well conditioned SPD matrix (unit scale) with exact zeros / repeated eigenvalues / exactly orthogonal
+    eigenvectors: independent correlated fields stacked in one vector, banded, permuted blocks, Kronecker, I + low rank."""
+    if struct == "block2":
+        M = _blockdiag([_corr_block(rs, k) for k in _split(rs, n, 2, True)])
+    elif struct == "block3u":
+        M = _blockdiag([_corr_block(rs, k) for k in _split(rs, n, 3, False)])
+    elif struct == "block4":
+        M = _blockdiag([_corr_block(rs, k) for k in _split(rs, n, 4, bool(rs.randint(2)))])
+    elif struct == "banded":
+        bw = int(rs.choice([1, 2]))
+        M = np.diag(rs.uniform(2.0, 3.0, n))
+        for d in range(1, bw + 1):
+            if n - d > 0:
+                o = rs.uniform(-0.45, 0.45, n - d); M += np.diag(o, d) + np.diag(o, -d)
+    elif struct == "permblock":
+        B = _blockdiag([_corr_block(rs, k) for k in _split(rs, n, int(rs.choice([2, 3])), False)])
+        perm = rs.permutation(n); M = B[np.ix_(perm, perm)]
+    elif struct == "kron":
+        divs = [a for a in range(2, n) if n % a == 0]
+        if not divs:
+            return _structured(rs, n, "block2")
+        a = int(rs.choice(divs)); b = n // a
+        A1 = _corr_block(rs, a) if rs.randint(2) else np.eye(a)
+        B1 = _corr_block(rs, b) if (rs.randint(2) or A1 is None or np.array_equal(A1, np.eye(a))) else np.eye(b)
+        M = np.kron(A1, B1)
+    elif struct == "idlowrank":
+        r = min(2, n - 1) if n > 1 else 1
+        U = np.zeros((n, r)); rows = rs.choice(n, size=min(n, max(r + 1, n // 2)), replace=False)
+        U[rows] = rs.standard_normal((len(rows), r))
+        M = np.eye(n) + 0.8 * U @ U.T / max(1.0, np.linalg.norm(U, 2) ** 2) * 3.0
+    elif struct == "repeated":
+        lam = rs.choice([0.5, 1.0, 2.0], size=n)
+        B = _blockdiag([_orth(rs, k) for k in _split(rs, n, 2, True)])
+        M = (B * lam) @ B.T
+    else:
+        raise ValueError(struct)
+    return (M + M.T) / 2
+
+def _apply_layout(v, layout, rs):
+    """Memory-layout flavours of the arrays handed to the library (values unchanged)."""
+    if layout in (None, "c") or not isinstance(v, np.ndarray) or v.ndim == 0:
+        return v
+    if layout == "f":
+        return np.asfortranarray(v)
+    if layout == "view":                              # non-contiguous view into a larger buffer
+        big = rs.standard_normal(tuple(2 * d + 1 for d in v.shape))
+        sl = tuple(slice(1, 2 * d + 1, 2) for d in v.shape)
+        big[sl] = v
+        return big[sl]
+    if layout == "readonly":
+        w = np.array(v, copy=True); w.setflags(write=False)
+        return w
+    raise ValueError(layout)
+
+def _gen_form(rs, form, n, s, struct=None):
     """-> (keyword, value handed to the library, reference precision matrix).
     `s` is the typical variance."""
     fam, shape = form.split("_")
+    if struct is not None and shape in ("full", "symfull", "sparse") and n >= 2:
+        t = {"cov": s, "prec": 1.0 / s, "sqrtcov": np.sqrt(s), "sqrtprec": 1.0 / np.sqrt(s)}[fam]
+        v = t * _structured(rs, n, struct)
+        if fam == "sqrtprec" and struct.startswith("block"):      # non-symmetric square root, block by block
+            sizes = _split(rs, n, {"block2": 2, "block3u": 3, "block4": 4}[struct], struct != "block3u")
+            v = t * _blockdiag([(_orth(rs, k) * np.exp(rs.uniform(np.log(0.6), np.log(1.7), k))) @ _orth(rs, k).T for k in sizes])
+        if shape == "sparse":
+            v = sps.csr_matrix(v)
+        return fam, v, G.precision_from_form(fam, v, n)
     if fam in ("cov", "prec"):
         t = s if fam == "cov" else 1.0 / s
     elif fam == "sqrtcov":
@@ -736,7 +862,7 @@ def _check_stacked(ctx, cfg, sampler, n, H, rhs, rs, tag="stacked"):
         Mm = G.dense(M)
         ctx.count(f"{tag}_matrix_seen")
     if H is None:
-        return
+        return Mm
     ctx.count(f"{tag}_normal_matrix_checked")
     if Mm.shape[1] != n or not ctx.close(Mm.T @ Mm, H, rtol=RTOL, atol=0.0, scale=float(np.max(np.abs(H)))):
         ctx.violation("stacked_normal_matrix_mismatch", cfg,
@@ -747,6 +873,7 @@ def _check_stacked(ctx, cfg, sampler, n, H, rhs, rs, tag="stacked"):
         if not ctx.close(Mm.T @ np.asarray(b).ravel(), rhs, rtol=RTOL, atol=0.0, scale=float(np.max(np.abs(rhs))) + float(np.max(np.abs(H))) * 1e-9):
             ctx.violation("stacked_rhs_mismatch", cfg,
                           detail=f"M^T b_tild differs from sum A^T P d + P0 mu0: max abs diff {np.max(np.abs(Mm.T @ np.asarray(b).ravel() - rhs)):.3g}")
+    return Mm
 
 # --------------------------------------------------------------------------- building the posterior
 
@@ -767,9 +894,10 @@ def _gen_rto_problem(cuqi, case, rs):
         sp = float(10.0 ** p["k"]) * float(rs.uniform(0.5, 2.0)) if "k" in p else None
         msd = 1.0 if sp is None else np.sqrt(sp)
         if p["kind"] == "gaussian":
-            fam, val, P0 = _gen_form(rs, p["form"], n, float(rs.choice([0.2, 1.0, 5.0])) if sp is None else sp)
+            fam, val, P0 = _gen_form(rs, p["form"], n, float(rs.choice([0.2, 1.0, 5.0])) if sp is None else sp, p.get("struct"))
+            val = _apply_layout(val, case.get("layout"), rs)
             if p["mean"] == "vector":
-                mu_lib = rs.standard_normal(n) * 2 * msd; mu = mu_lib.copy()
+                mu = rs.standard_normal(n) * 2 * msd; mu_lib = _apply_layout(mu.copy(), case.get("layout"), rs)
             elif p["mean"] == "scalar":
                 mu_lib = float(rs.choice([0.7, -1.3, 2.0])) * msd; mu = np.full(n, mu_lib)
             else:
@@ -818,15 +946,23 @@ def _gen_rto_problem(cuqi, case, rs):
                 A, model = _gen_model_2d(cuqi, rs, l["m"], n, dom, l.get("rng"), amp if amp is not None else float(rs.choice([0.4, 1.0, 2.5])))
             else:
                 A, model = _gen_model(cuqi, rs, l["model"], l["m"], n, geom() if geom is not None else None, amp)
-            nfam, nval, P = _gen_form(rs, l["noise"], l["m"], sn)
+            nfam, nval, P = _gen_form(rs, l["noise"], l["m"], sn, l.get("struct"))
+            nval = _apply_layout(nval, case.get("layout"), rs)
             fam, val = nfam, nval
             As.append(A); Ps.append(P); mods.append(model); noise.append((fam, val))
             ds.append(A @ (mu + msd * rs.standard_normal(n)) + np.sqrt(sn if scaled else 1.0) * rs.standard_normal(l["m"]))
         xm, C, H, rhs = G.posterior(As, Ps, ds, P0, mu)
         cond = float(np.linalg.cond(H))
         if cond <= COND_MAX:
-            ref.update(xm=xm, C=C, H=H, rhs=rhs, As=As, Ps=Ps, ds=ds, mods=mods, noise=noise, P0=P0, mu=mu,
+            ds_lib = [_apply_layout(d.copy(), case.get("layout"), rs) for d in ds]
+            ref.update(xm=xm, C=C, H=H, rhs=rhs, As=As, Ps=Ps, ds=ds, ds_lib=ds_lib, mods=mods, noise=noise, P0=P0, mu=mu,
                        mk_prior=mk_prior, cond=cond)
+            # snapshots of every array handed to the library ("inputs unchanged after use" monitor)
+            handed = [("data%d" % j, d) for j, d in enumerate(ds_lib)] + [("noise%d" % j, v) for j, (f_, v) in enumerate(noise)]
+            if "prior_val" in ref:
+                handed += [("prior_matrix", ref["prior_val"]), ("prior_mean", ref["mu_lib"])]
+            ref["handed"] = [(nm, v, (G.dense(v).copy() if hasattr(v, "toarray") else np.array(v, copy=True)))
+                             for nm, v in handed if isinstance(v, np.ndarray) or hasattr(v, "toarray")]
             return ref
     return None
 
@@ -838,10 +974,10 @@ def _build_rto(cuqi, case, prob, x_init):
     sa = _solver_args(Ntot)
     if case["iface"] == "tuple":
         fam, val = prob["noise"][0]
-        target = (prob["ds"][0].copy(), prob["mods"][0], val, prob["mu_lib"], prob["prior_val"])
+        target = (prob["ds_lib"][0], prob["mods"][0], val, prob["mu_lib"], prob["prior_val"])
         return cuqi.sampler.LinearRTO(target, x0=x_init, **sa)
     x, ys = _build_dists(cuqi, prob)
-    post = _build_posterior(cuqi, case["build"], x, ys, prob["ds"])
+    post = _build_posterior(cuqi, case["build"], x, ys, prob["ds_lib"])
     return _make_rto(cuqi, case["iface"], post, x_init, sa)
 
 def _build_dists(cuqi, prob):
@@ -853,8 +989,8 @@ def _build_dists(cuqi, prob):
 def _build_posterior(cuqi, build, x, ys, ds):
     D = cuqi.distribution
     if build == "joint":
-        return D.JointDistribution(x, *ys)(**{f"y{j}": d.copy() for j, d in enumerate(ds)})
-    liks = [y.to_likelihood(d.copy()) for y, d in zip(ys, ds)]
+        return D.JointDistribution(x, *ys)(**{f"y{j}": d for j, d in enumerate(ds)})
+    liks = [y.to_likelihood(d) for y, d in zip(ys, ds)]
     return D.Posterior(liks[0], x) if len(liks) == 1 else D.MultipleLikelihoodPosterior(*liks, x)
 
 def _make_rto(cuqi, iface, post, x_init, sa):
@@ -863,6 +999,49 @@ def _make_rto(cuqi, iface, post, x_init, sa):
         s.initialize()
         return s
     return cuqi.sampler.LinearRTO(post, x0=x_init, **sa)
+
+def _inputs_unchanged(ctx, cfg, prob):
+    for nm, v, snap in prob.get("handed", []):
+        ctx.count("inputs_unchanged_checked")
+        now = G.dense(v) if hasattr(v, "toarray") else np.asarray(v)
+        if now.shape != snap.shape or not np.array_equal(now, snap):
+            ctx.violation("input_mutated", {**cfg, "input": nm.rstrip("0123456789")}, detail=f"the array handed in as {nm} was modified by building / running the sampler")
+
+def _lite_readoff(ctx, cfg, drawer, sampler, prob, rs, states, n):
+    """Large systems (sparse regime of the Gaussian class): the offset is read off a real transition, the linear part
+    is checked in random directions against H^-1 M^T g with M the sampler's own stacked operator (probed column by
+    column and itself compared with the closed form: M^T M == H, M^T b == H xbar, adjoint == transpose)."""
+    xm, C, H, cond = prob["xm"], prob["C"], prob["H"], prob["cond"]
+    sA, sB = states
+    sd = float(np.sqrt(np.max(np.diag(C))))
+    scale = max(float(np.max(np.abs(xm))), sd)
+    x0 = drawer.draw(sA, None)
+    if not drawer.N:
+        ctx.inconclusive("no normal draw observed during a step: perturbation not scriptable"); return
+    N = drawer.N
+    Mm = _check_stacked(ctx, cfg, sampler, n, H, prob["rhs"], rs)
+    gs = [rs.standard_normal(N) * (1.0 if j == 0 else 4.0) for j in range(3)]
+    xs = [drawer.draw(sA if j % 2 == 0 else sB, g) for j, g in enumerate(gs)]
+    xb0 = drawer.draw(sB, None)
+    dist = max(float(np.linalg.norm(sA - xm)), float(np.linalg.norm(sB - xm))) + 20.0 * sd * np.sqrt(n)
+    xmax = max(float(np.max(np.abs(xm))), float(np.max(np.abs(sA))), float(np.max(np.abs(sB)))) + 20.0 * sd
+    tol_x = _xtol(scale, cond, dist, xmax, drawer.loosest_tol)
+    ctx.count("rto_mean_checked")
+    if not ctx.close(x0, xm, rtol=0.0, atol=tol_x):
+        ctx.violation("rto_mean_mismatch", cfg, detail=f"draw with zero perturbation differs from the closed-form mean: max abs err {np.max(np.abs(x0 - xm)):.3g} (posterior sd {sd:.3g}, n={n}, N={N})")
+    ctx.count("rto_state_independence_checked")
+    if not ctx.close(xb0, x0, rtol=0.0, atol=2 * tol_x):
+        ctx.violation("rto_state_dependence", cfg, detail=f"zero perturbation from two current states: max abs diff {np.max(np.abs(xb0 - x0)):.3g}")
+    if Mm is not None and Mm.shape == (N, n):
+        for g, xg in zip(gs, xs):
+            pred = xm + np.linalg.solve(H, Mm.T @ g)
+            ctx.count("rto_lite_directions_checked")
+            tol_g = RTOL * max(scale, float(np.max(np.abs(pred)))) + (2.0 + np.sqrt(N)) * tol_x
+            if not ctx.close(xg, pred, rtol=0.0, atol=tol_g):
+                ctx.violation("rto_linear_part_mismatch", cfg, detail=f"x(g) != xbar + H^-1 M^T g: max abs err {np.max(np.abs(xg - pred)):.3g} (sd {sd:.3g})")
+    if drawer.bad:
+        ctx.inconclusive(drawer.bad)
+    ctx.note("N_perturbation", N)
 
 def _run_rto(case, ctx):
     import cuqi
@@ -894,9 +1073,15 @@ def _run_rto(case, ctx):
     if kind == "crashed":
         raise val
     drawer.N = None
+    if case.get("lite") and getattr(sampler, "M", None) is not None:
+        _lite_readoff(ctx, cfg, drawer, sampler, prob, rs, (sA, sB), n)
+        _inputs_unchanged(ctx, cfg, prob)
+        ctx.note("cond_H", prob["cond"]); ctx.nontrivial()
+        return
     res = _read_affine(ctx, cfg, drawer, prob["xm"], prob["C"], rs, (sA, sB), "rto", prob["cond"])
     if res is None:
         return
+    _inputs_unchanged(ctx, cfg, prob)
     x0, B, ok, tol_x = res
     N = drawer.N
     # chains produced by the public sample(): consecutive draws follow the same affine map
